@@ -263,7 +263,15 @@ func (a *Activation) applyContract(con *FuncContract, fn *ssa.Function, args []V
 	if fn != nil {
 		for i, fv := range fn.FreeVars {
 			if i < len(bindings) {
-				vars[fv.Name()] = bindings[i]
+				// captured variables are cells: the contract names their content (as it does when the closure is verified)
+				cell := bindings[i]
+				T := derefType(fv.Type())
+				if cell.K == KRef && T != nil && kindOfType(T) != KStruct {
+					prefix, ref, idx := locOf(cell, T)
+					vars[fv.Name()] = t.load(pre, prefix, ref, idx, T)
+				} else {
+					vars[fv.Name()] = cell
+				}
 			}
 		}
 	}
@@ -433,14 +441,25 @@ func (a *Activation) applyContract(con *FuncContract, fn *ssa.Function, args []V
 	for _, c := range con.Clauses {
 		switch c.Kind {
 		case "let":
-			vars[c.Name] = penv.evalSrc(c.Expr, c.Src)
-		case "premise":
-			// environment premise of the callee: part of what the caller may rely on as well (listed)
-			t.assume(st.pc, penv.evalBool(c.Expr, c.Src))
-		case "ensures":
-			t.assume(st.pc, penv.evalBool(c.Expr, c.Src))
-		case "assume":
-			t.assume(st.pc, penv.evalBool(c.Expr, c.Src))
+			ne := len(t.errs)
+			v := penv.evalSrc(c.Expr, c.Src)
+			if len(t.errs) > ne {
+				// names the callee's locals: not expressible at a call site
+				t.errs = t.errs[:ne]
+				continue
+			}
+			vars[c.Name] = v
+		case "premise", "ensures", "assume":
+			// (a premise is an environment premise of the callee: part of what the caller may rely on as well, listed)
+			// A clause over the callee's own locals (local("x"), loop variables) cannot be stated at a call site: it is
+			// proved on the callee and simply not handed to the caller (fewer assumptions: sound).
+			ne := len(t.errs)
+			v := penv.evalBool(c.Expr, c.Src)
+			if len(t.errs) > ne {
+				t.errs = t.errs[:ne]
+				continue
+			}
+			t.assume(st.pc, v)
 		}
 	}
 	for _, r := range res {
@@ -587,7 +606,11 @@ func (t *Task) verifyFunc(fn *ssa.Function, con *FuncContract) {
 	penv := act.exprEnv(out, vars)
 	// reachability of the exit
 	cv2 := &Obligation{Name: t.curFn + caseSuffix(con) + "#cover[exit]", Kind: "cover", Fn: t.curFn, Pc: out.pc, Goal: tFalse, NAssert: len(t.asserts), task: t, Src: con.Src}
-	t.covers = append(t.covers, cv2)
+	if !con.hasClause("noexitcover") {
+		// (a lemma harness whose only purpose is a call-site precondition that is a recorded finding has no reachable
+		// exit once that precondition is assumed)
+		t.covers = append(t.covers, cv2)
+	}
 	n := 0
 	for _, c := range con.Clauses {
 		switch c.Kind {
